@@ -13,6 +13,7 @@ import (
 	"strings"
 	"sync"
 	"testing"
+	"time"
 	"unsafe"
 
 	"github.com/google/go-tdx-guest/abi"
@@ -352,6 +353,31 @@ func TestC16(t *testing.T) {
 		}
 		r.Emit(fmt.Sprintf("# C16.race src=%s workers=%d iters=%d", src, workers, iters), obs, fail, "race|"+src, true, "race", "obs:"+strings.SplitN(obs, " ", 2)[0])
 	}
+	// cold start: the FIRST verifications of a fresh process run concurrently, with the embedded root (TrustedRoots nil);
+	// lazily initialised package state (pools, caches, tables) is only ever written then
+	procs := 3
+	if tier == "thorough" {
+		procs = 20
+	}
+	coldObs, coldFail := "norace verdicts-equal", ""
+	for p := 0; p < procs && coldFail == ""; p++ {
+		cmd := exec.Command(os.Args[0], "-test.run", "^TestColdStartWorker$", "-test.count=1")
+		cmd.Env = append(os.Environ(), "TDX_OUT=", "TDX_COLD=1", "GORACE=halt_on_error=0 exitcode=66")
+		outB, err := cmd.CombinedOutput()
+		text := string(outB)
+		if i := strings.Index(text, "WARNING: DATA RACE"); i >= 0 {
+			end := i + 900
+			if end > len(text) {
+				end = len(text)
+			}
+			coldObs, coldFail = "race", "data race between the first concurrent verifications of a process (TrustedRoots nil, own options each): "+strings.ReplaceAll(text[i:end], "\n", " | ")
+		} else if strings.Contains(text, "VERDICT-MISMATCH") {
+			coldObs, coldFail = "verdict-mismatch", "a concurrent cold-start call returned a different verdict than the solo run"
+		} else if err != nil {
+			coldObs, coldFail = "worker-failed", "cold-start worker failed: "+hx.Trunc(strings.ReplaceAll(text, "\n", " | "), 600)
+		}
+	}
+	r.Emit(fmt.Sprintf("# C16.race src=coldstart procs=%d", procs), coldObs, coldFail, "race|coldstart", true, "race", "obs:"+strings.SplitN(coldObs, " ", 2)[0])
 	r.Note("entries", len(entries))
 	if err := r.Close(); err != nil {
 		t.Fatal(err)
@@ -413,4 +439,59 @@ func TestRaceWorker(t *testing.T) {
 		t.Fail()
 	}
 	_ = reflect.DeepEqual
+}
+
+
+// TestColdStartWorker: in a fresh process, 32 goroutines released together make the process's first calls of
+// verify.TdxQuote / verify.RawTdxQuote / validate on the repository's sample quote, each with its own options and the
+// embedded root of trust; afterwards the same calls run alone and the verdicts are compared.
+func TestColdStartWorker(t *testing.T) {
+	if os.Getenv("TDX_COLD") == "" {
+		t.Skip("worker entry point")
+	}
+	root := "/repo"
+	if v := os.Getenv("VERIF_REPO"); v != "" {
+		root = v
+	}
+	raw, err := os.ReadFile(root + "/testing/testdata/tdx_prod_quote_SPR_E4.dat")
+	if err != nil {
+		t.Fatal(err)
+	}
+	at := time.Date(2023, 12, 1, 0, 0, 0, 0, time.UTC)
+	one := func(i int) string {
+		now := &verify.TimeSet{PckCertChain: at, TcbInfo: at, QeIdentity: at, PckCrl: at, RootCaCrl: at}
+		o := &verify.Options{Now: now}
+		switch i % 3 {
+		case 0:
+			return verdict(verify.RawTdxQuote(append([]byte{}, raw...), o))
+		case 1:
+			any, err := abi.QuoteToProto(append([]byte{}, raw...))
+			if err != nil {
+				return "parse-err"
+			}
+			return verdict(verify.TdxQuote(any, o))
+		}
+		_, err := verify.ExtractChainFromQuote(func() any { q, _ := abi.QuoteToProto(append([]byte{}, raw...)); return q }())
+		return verdict(err)
+	}
+	const n = 32
+	res := make([]string, n)
+	start := make(chan struct{})
+	var wg sync.WaitGroup
+	for g := 0; g < n; g++ {
+		wg.Add(1)
+		go func(g int) {
+			defer wg.Done()
+			<-start
+			res[g] = one(g)
+		}(g)
+	}
+	close(start)
+	wg.Wait()
+	for g := 0; g < n; g++ {
+		if solo := one(g); solo != res[g] {
+			fmt.Println("VERDICT-MISMATCH", g, res[g], solo)
+			t.Fail()
+		}
+	}
 }
